@@ -9,13 +9,17 @@ func VerifHasWeakQuorum(part, whole int64) bool { return hasWeakQuorum(part, who
 // VerifCouldReach evaluates quorumState.CouldReachStrongQuorumFor on a synthetic
 // tally: total scaled power `whole`, `voted` power already seen from senders,
 // `support` of it for the queried chain.
-func VerifCouldReach(withAdversary bool, whole, voted, support int64) bool {
+func VerifCouldReach(withAdversary bool, whole, voted, support int64, present bool) bool {
 	key := ECChainKey{1}
 	q := &quorumState{
 		senders:           map[ActorID]struct{}{},
 		sendersTotalPower: voted,
-		chainSupport:      map[ECChainKey]chainSupport{key: {power: support}},
+		chainSupport:      map[ECChainKey]chainSupport{{2}: {power: voted - support}},
 		powerTable:        &PowerTable{ScaledTotal: whole},
+	}
+	// a value nobody has voted for yet has no entry at all (present=false is only meaningful with support 0)
+	if present || support != 0 {
+		q.chainSupport[key] = chainSupport{power: support}
 	}
 	return q.CouldReachStrongQuorumFor(key, withAdversary)
 }
